@@ -61,7 +61,7 @@ def generate(ctx):
                 if ctx.tier == "quick" and k == 4 and b > 0:
                     continue
                 cfg = gen.gen_cfg(ctx.rng)
-                teams, regime = gen.gen_teams(ctx.rng, cfg["beta"], kmin=k, kmax=k, pmax=3,
+                teams, regime = gen.gen_teams(ctx.rng, cfg["beta"], kmin=k, kmax=k, pmax=3, default_rating=(cfg["mu"], cfg["sigma"]),
                                               regime=ctx.rng.choice(["typical", "wide", "mismatch", "identical"]))
                 for lv in gen.all_weak_orders(k):
                     lv = list(lv)
